@@ -20,7 +20,7 @@ FUNCTIONS = ["ak.ppobj.ReprColumn.to_fmt_str", "ak.ppobj._ColumnsParsedFmt._pars
 BOUNDS = {
     "quick": {"columns": "1 column: every (field of 3, width spec from {default, fixed w, ranged a-b} with 0<=a<=b<=7, modifier of the enum field from {none,full,val,name}, break-by); "
                          "2-3 columns: each from 7 representative descriptors (incl. repeated field, hidden ':-1' field, zero width, ranged)",
-              "limits": "none, '*', (a,b) with 0<=a,b<=2 (combined with width bounds <= 2 in the 1-column space)", "records": "0, 1, 3 and 5 rows (cells of different lengths, repeated values for break-by); 60 rows for the limit-related part",
+              "limits": "none, '*', (a,b) with 0<=a,b<=2, half-open (a, None) / (None, b) as constructor argument (combined with width bounds <= 2 in the 1-column space)", "records": "0, 1, 3 and 5 rows (cells of different lengths, repeated values for break-by); 60 rows for the limit-related part",
               "life": "fresh, printed, printed + re-formatted with '' / ';' / ';;', printed + limits changed through the setter and read back before the next printing, format fed back twice"},
 }
 BOUNDS["thorough"] = dict(BOUNDS["quick"], columns=BOUNDS["quick"]["columns"].replace("<=7", "<=12").replace("7 representative", "10 representative"))
@@ -182,11 +182,15 @@ def h_multi_column(c0: int, c1: int, c2: int, lk: int, la: int, lb: int, shard=N
 def h_many_records(lk: int, la: int, lb: int, via_arg: bool, shard=None) -> None:
     """record limits with a table long enough for the default limits (30:20) to matter"""
     from ak.ppobj import PPTable
-    reject_unless(0 <= lk <= 2)
-    if lk != 2:
+    reject_unless(0 <= lk <= 4)
+    if lk < 2:
         reject_unless(la == 0 and lb == 0)
     else:
         reject_unless(la in (0, 3, 40) and lb in (0, 2, 40))
+    if lk == 3:
+        reject_unless(lb == 0 and via_arg)        # (n_first, None): half-open limits exist only as constructor argument
+    if lk == 4:
+        reject_unless(la == 0 and via_arg)        # (None, n_last)
     lk, la, lb, via_arg = [realize(x) for x in (lk, la, lb, via_arg)]
     with concrete():
         _many_records(lk, la, lb, via_arg, shard)
@@ -195,10 +199,10 @@ def h_many_records(lk: int, la: int, lb: int, via_arg: bool, shard=None) -> None
 def _many_records(lk, la, lb, via_arg, shard):
     from ak.ppobj import PPTable
     records = [(i, "n" + str(i % 7), 10 if i % 3 else 999) for i in range(shard["rows"])]
-    fmt0 = "id,name!:2-5,st/name" + ("" if via_arg else _limits_fmt(lk, la, lb))
+    fmt0 = "id,name!:2-5,st/name" + ("" if via_arg else _limits_fmt(min(lk, 2), la, lb))
     limits = None
     if via_arg:
-        limits = {0: None, 1: (None, None), 2: (la, lb)}[lk]
+        limits = {0: None, 1: (None, None), 2: (la, lb), 3: (la, None), 4: (None, lb)}[lk]
     for stage in (0, 1):
         t = PPTable(records, fmt=fmt0, fields=list(FIELDS), fields_types={"st": _enum()}, limits=limits)
         if stage:
